@@ -80,6 +80,8 @@ def run_one(chk, P, d, root, idx, n, timeout, schedule, late_pids=(), kind="sche
         sc.run(schedule)
         reply = d.ask(sched.schedule_sexp(n, timeout, schedule))
         diffs = sched.compare(sc, reply, schedule)
+        # the oracle judges complete executions: whatever is still running is run to its end
+        sc.drain()
         oracle(chk, sc, schedule, set(late_pids))
         trace = [list(t) for t in sc.trace]
     finally:
